@@ -303,3 +303,60 @@ func TestProp_C12_deep(t *testing.T) {
 		})
 	})
 }
+
+// ---- real-depth legs of the remaining history properties -----------------------------------------
+
+func TestProp_C07_deep(t *testing.T) {
+	col := evid.For("C07", "deep", deepDesc+"with 2..3 stale forks and subscribers registered at drawn steps: subscriber-side reconstruction as in the stream leg, including reorganisations to a stale fork across the retained depth (the announced headers start right above a fork point that is served from storage); non-trivial = a subscriber saw a reorganisation")
+	w := map[string]int{"extend": 6, "clean": 2, "staleOvertake": 3, "reload": 1, "subscribe": 2, "dup": 1, "late": 1}
+	rapid.Check(t, func(t *rapid.T) {
+		runHistory(t, col, Focus{ID: "C07", RealDepth: true, StaleForks: true, Stream: true}, w, func(m *M) bool {
+			return m.subsCount > 0 && m.reorgs > 0
+		})
+	})
+}
+
+func TestProp_C08_deep(t *testing.T) {
+	col := evid.For("C08", "deep", deepDesc+"reference verdicts for every submission (orphans, duplicates on any branch, new forks at / one beyond MaxBranchDepth 144/30/6 below the best height) and the read-API snapshot around refusals; non-trivial = a depth refusal or an at-depth acceptance, and a Clean or Load")
+	w := map[string]int{"extend": 8, "dup": 2, "orphan": 1, "late": 1, "clean": 2, "reload": 1}
+	rapid.Check(t, func(t *rapid.T) {
+		runHistory(t, col, Focus{ID: "C08", RealDepth: true, Verdicts: true}, w, func(m *M) bool {
+			return (m.atDepthAccept > 0 || m.beyondDepthRefuse > 0 || m.refusalClasses[VDepth] > 0) && (m.cleans > 0 || m.loads > 0)
+		})
+	})
+}
+
+func TestProp_C17_deep(t *testing.T) {
+	col := evid.For("C17", "deep", deepDesc+"with MarkHeaderInvalid / MarkHeaderNotInvalid / resubmission as in the marks leg (marks only on headers still held in memory: known finding C17-floor excluded by construction); non-trivial = a mark on the best chain and a Load or Clean")
+	w := map[string]int{"extend": 8, "late": 1, "clean": 1, "reload": 2, "mark": 4, "unmark": 2, "resubmitMarked": 2}
+	rapid.Check(t, func(t *rapid.T) {
+		runHistory(t, col, Focus{ID: "C17", RealDepth: true, Marks: true, Verdicts: true}, w, func(m *M) bool {
+			return m.marksOnBest > 0 && (m.cleans > 0 || m.loads > 0)
+		})
+	})
+}
+
+func TestProp_C19_deep(t *testing.T) {
+	col := evid.For("C19", "deep", deepDesc+"locator oracle of the locator leg (max 1,2,3,10,50) with most of the back-off served from storage, and the simulated conformant peer; non-trivial = a side branch alive and a Clean or Load")
+	w := map[string]int{"extend": 8, "late": 1, "clean": 2, "reload": 1, "peersync": 4}
+	rapid.Check(t, func(t *rapid.T) {
+		runHistory(t, col, Focus{ID: "C19", RealDepth: true, Locators: true}, w, func(m *M) bool {
+			return len(m.pools().sideTips) > 0 && (m.cleans > 0 || m.loads > 0)
+		})
+	})
+}
+
+func TestProp_C18_deep(t *testing.T) {
+	col := evid.For("C18", "deep", deepDesc+"blocks with known transactions on the base chain at heights 1, 2, the 1000-header file boundary, both sides of the prune boundary and near the tip, plus generated blocks on side branches; proofs (header / hash / both; valid or one element corrupted) as in the merkle leg, verified before and after real Clean / Save / Load; non-trivial = a corrupted proof and a proof for a block served from storage")
+	w := map[string]int{"extend": 3, "late": 1, "clean": 2, "reload": 2, "block": 3, "prove": 10}
+	rapid.Check(t, func(t *rapid.T) {
+		runHistory(t, col, Focus{ID: "C18", RealDepth: true}, w, func(m *M) bool {
+			col.Count("proofs", m.proofs)
+			col.Count("corrupted_proofs", m.corruptProofs)
+			if m.prunedProofs > 0 {
+				m.k.Class("proof_for_pruned_history_block")
+			}
+			return m.corruptProofs > 0 && m.prunedProofs > 0
+		})
+	})
+}
